@@ -1,0 +1,11 @@
+//go:build verif
+
+package ast
+
+// VerifHeaderBytes exposes getHeaderBytes (format byte + length bytes for a
+// type name and an element count) to the external verification harness, so
+// that all 16.7M sizes x 14 formats can be swept without materialising items.
+// It is compiled only with the "verif" build tag.
+func VerifHeaderBytes(typ string, size int) ([]byte, error) {
+	return getHeaderBytes(typ, size)
+}
